@@ -131,12 +131,14 @@ def all_units():
 
 def inject(scratch, units):
     touched = {}
+    if not any(u.name == "_common" for u in units):
+        units = [parse_unit("_common")] + list(units)
     for u in units:
         text = touched.get(u.file) or scratch.read(u.file)
         for a in u.attrs:
             text = common.insert_before_anchor(text, a["anchor"], a["lines"],
                                                "%s:%s" % (u.name, u.file), a["after"])
-        mod = "#[cfg(kani)]\nmod %s {\n%s\n}" % (u.modname, u.body)
+        mod = "#[cfg(kani)]\n%smod %s {\n%s\n}" % ("pub(crate) " if u.name == "_common" else "", u.modname, u.body)
         text = common.append_block(text, u.name, mod)
         touched[u.file] = text
     for rel, text in touched.items():
